@@ -102,12 +102,18 @@ def gen_case(rng, tier, i):
     n = 20
     rr = np.sqrt(rng.uniform(0, 1, n)); th = rng.uniform(0, 2 * np.pi, n)
     rr[:4] = 1.0
-    return dict(spec=spec, info=info, classes=sorted(set(classes)), mode=mode, dist=dist, nr=nr,
+    case = dict(spec=spec, info=info, classes=sorted(set(classes)), mode=mode, dist=dist, nr=nr,
                 Hy=float(rng.choice([0.0, 1.0, rng.uniform(-1, 1)])), Px=(rr * np.cos(th)).tolist(),
                 Py=(rr * np.sin(th)).tolist(),
                 wl=float(spec['wavelengths'][int(rng.integers(len(spec['wavelengths'])))][0]),
                 wls=([float(spec['wavelengths'][int(j)][0]) for j in rng.integers(len(spec['wavelengths']), size=n)]
                      if multiwl else None))
+    if rng.random() < 0.15:
+        # traced once, then edited through the public setters: the losses are those of the lens as it is now
+        ed = L.gen_edits(rng, spec, kinds=('radius', 'conic', 'thickness'))
+        if ed:
+            case['edits'] = ed
+    return case
 
 
 def medium_k(m, wl, lens_surface_post):
@@ -132,6 +138,13 @@ def check_case(case, rec):
     lens = L.build(spec)
     classes = case['classes']
     rec.cls(*(classes or ['no-loss-mechanism']), f"mode-{case['mode']}")
+    if case.get('edits'):
+        rec.cls('edited-after-first-use')
+        try:
+            lens.trace(0.0, case['Hy'], case['wl'], 3, 'hexapolar')
+        except ValueError:
+            pass       # judged below, on the edited lens
+        spec = L.apply_edits(lens, spec, case['edits'])
     wl = case['wl']
     if case.get('wls'):
         wl = np.array(case['wls'])      # one bundle carrying several wavelengths
